@@ -971,6 +971,10 @@ pub fn faulted_step(&mut self, step: usize, op: &Op) -> Result<(), Violation> {
             }
         }
         s.model = now.iter().map(|e| ME { id: e.id, gen: e.gen, val: e.val }).collect();
+        // the unwind may have left a different map object in the slot than the harness bookkeeping
+        // says (`slot.map = other.clone()` still installs the clone when dropping the old map
+        // panics): take the hash plan from the map itself
+        s.plan = s.map.hasher().plan;
     }
     if !class.is_drop() && st.n_live != expected_blocks {
         return Err(mk("after-panic:block-leaked", format!("ledger holds {} blocks, collections own {expected_blocks} (class {:?})", st.n_live, class)));
